@@ -15,7 +15,6 @@ import (
 
 // Pass-through types so that instrumented files that use them still compile.
 type (
-	Once      = realsync.Once
 	WaitGroup = realsync.WaitGroup
 	Map       = realsync.Map
 	Pool      = realsync.Pool
@@ -308,6 +307,25 @@ func (m *Mutex) Unlock() {
 		t.held ^= m.bit(s)
 		m.vc = append(m.vc[:0], t.vc...)
 		t.vc[t.id]++
+	}
+}
+
+// Once is the controlled replacement for sync.Once: the function runs under a controlled mutex,
+// so that a thread which arrives while another one is inside it blocks visibly to the scheduler
+// (the real sync.Once would block the goroutine behind the scheduler's back as soon as the
+// function contains a scheduling point). It orders at least as much as the real one.
+type Once struct {
+	m    Mutex
+	done bool
+}
+
+// Do calls f if and only if Do is being called for the first time for this instance of Once.
+func (o *Once) Do(f func()) {
+	o.m.Lock()
+	defer o.m.Unlock()
+	if !o.done {
+		defer func() { o.done = true }()
+		f()
 	}
 }
 
